@@ -149,5 +149,9 @@ class BaseDB(object):
             usernames = self.db.keys()
         finally:
             self.lock.release()
-        usernames = [u for u in usernames if not u.startswith("--Reserved--")]
+        # keys of a database opened from a file are bytes, in-memory ones are
+        # whatever the user provided
+        usernames = [u for u in usernames if not
+                     u.startswith(b"--Reserved--" if isinstance(u, bytes)
+                                  else "--Reserved--")]
         return usernames
